@@ -1,1 +1,84 @@
-// contract harnesses for trust-lsp/src/handlers_sync
+// Contract harnesses for crates/trust-lsp/src/handlers/sync.rs  (C14)
+//
+// apply_content_changes(text, [change]) with the change expressed in editor positions (lines and
+// UTF-16 code units) yields the text the editor holds: chars[..i] + inserted + chars[j..].
+// Bound: texts of <= 3 chars over the full char domain, inserted text <= 1 char (full domain),
+// every boundary pair i <= j.
+
+use super::*;
+use tower_lsp::lsp_types::{Position, Range, TextDocumentContentChangeEvent};
+
+const K: usize = 3;
+
+fn text_of(chars: &[char; K], from: usize, to: usize, out: &mut String) {
+    let mut i = from;
+    while i < to {
+        out.push(chars[i]);
+        i += 1;
+    }
+}
+
+fn ref_pos(chars: &[char; K], k: usize) -> Position {
+    let mut line = 0;
+    let mut col = 0;
+    let mut i = 0;
+    while i < k {
+        if chars[i] == '\n' {
+            line += 1;
+            col = 0;
+        } else {
+            col += chars[i].len_utf16() as u32;
+        }
+        i += 1;
+    }
+    Position { line, character: col }
+}
+
+// @unit id=lsp.apply_change props=C14 tier=quick kind=bounded bound="texts of <= 3 chars (full char domain), one ranged change over every boundary pair, inserted text <= 1 char" timeout=2400 fn=apply_content_changes,position_to_offset
+#[kani::proof]
+#[kani::unwind(16)]
+fn lsp_apply_change() {
+    let chars: [char; K] = [kani::any(), kani::any(), kani::any()];
+    let n: usize = kani::any();
+    kani::assume(n <= K);
+    let (i, j): (usize, usize) = (kani::any(), kani::any());
+    kani::assume(i <= j && j <= n);
+    let ins: char = kani::any();
+    let has_ins: bool = kani::any();
+    let mut original = String::new();
+    text_of(&chars, 0, n, &mut original);
+    let mut inserted = String::new();
+    if has_ins {
+        inserted.push(ins);
+    }
+    let change = TextDocumentContentChangeEvent {
+        range: Some(Range { start: ref_pos(&chars, i), end: ref_pos(&chars, j) }),
+        range_length: None,
+        text: inserted.clone(),
+    };
+    let got = apply_content_changes(&original, &[change]);
+    let mut expected = String::new();
+    text_of(&chars, 0, i, &mut expected);
+    expected.push_str(&inserted);
+    text_of(&chars, j, n, &mut expected);
+    kani::cover!(i == 1 && j == 2 && chars[0].len_utf16() == 2 && has_ins);
+    kani::cover!(i == 2 && j == 3 && chars[0] == '\n');
+    kani::cover!(i == j && !has_ins);
+    assert!(got.as_deref() == Some(expected.as_str()), "the server's text after an incremental change equals the editor's text");
+}
+
+// a full-document change replaces the text
+// @unit id=lsp.apply_full_change props=C14 tier=quick kind=bounded bound="texts of <= 3 chars" timeout=900 fn=apply_content_changes
+#[kani::proof]
+#[kani::unwind(16)]
+fn lsp_apply_full_change() {
+    let chars: [char; K] = [kani::any(), kani::any(), kani::any()];
+    let n: usize = kani::any();
+    kani::assume(n <= K);
+    let mut new_text = String::new();
+    text_of(&chars, 0, n, &mut new_text);
+    let change = TextDocumentContentChangeEvent { range: None, range_length: None, text: new_text.clone() };
+    let got = apply_content_changes("old text\n", &[change]);
+    kani::cover!(n == 3);
+    assert!(got.as_deref() == Some(new_text.as_str()));
+}
